@@ -1,4 +1,4 @@
-CONSTANTS MaxSeq = 3 ReaderOrder = "mems-then-version" WriterOrder = "insert-then-publish" FlushOrder = "install-then-drop"
+CONSTANTS MaxSeq = 3 ReaderOrder = "mems-then-version" WriterOrder = "insert-then-publish" FlushOrder = "install-then-drop" ReaderPin = TRUE
 SPECIFICATION Spec
 INVARIANT ReadCorrect
 CHECK_DEADLOCK FALSE
